@@ -10,6 +10,20 @@ def sh(cmd, cwd=None, timeout=1800):
     return r.returncode, r.stdout + r.stderr
 
 
+def main_demo(wt, meta, outdir):
+    """demo in package main (cmd/hidi): overlay build with the ALSA stub, binary run WITHOUT flags (init() calls flag.Parse()),
+    selected by the environment variables named in meta['how_to_run_demo']"""
+    ov = os.path.join(outdir, "seedeval_overlay.json")
+    json.dump({"Replace": {os.path.join(wt, "internal/pkg/midi/driver/alsa/alsa.go"): "/verif/harness/go/alsa_stub/alsa.go"}}, open(ov, "w"))
+    binp = os.path.join(outdir, "seedeval_main.test")
+    rc, out = sh("go test -c -vet=off -overlay %s -o %s ./cmd/hidi" % (ov, binp), cwd=wt)
+    if rc != 0:
+        return rc, out
+    m = re.search(r"((?:[A-Z_][A-Z0-9_]*=\S+\s+)+)\S*main\.test", meta.get("how_to_run_demo", ""))
+    envs = m.group(1) if m else ""
+    return sh("cd %s/cmd/hidi && %s %s" % (wt, envs, binp), timeout=600)
+
+
 def go_tests(wt, run=None, pkg="./internal/..."):
     cmd = "go test -vet=off -count=1 %s %s" % (("-run '%s'" % run) if run else "-skip 'TestSeed|TestDemo'", pkg)
     rc, out = sh(cmd, cwd=wt)
@@ -27,13 +41,20 @@ def main():
     demo_rel = found.strip().split("\n")[0]
     pkg = "./" + os.path.dirname(demo_rel)
     report = {"property": pid, "demo_package": pkg}
-    rc1, _, o1 = go_tests(wt, run="TestSeed|TestDemo|Seed", pkg=pkg)
+    in_main = demo_rel.startswith("cmd/hidi")
+    if in_main:
+        rc1, o1 = main_demo(wt, meta, outdir)
+    else:
+        rc1, _, o1 = go_tests(wt, run="TestSeed|TestDemo|Seed", pkg=pkg)
     report["demo_with_change"] = "FAIL" if rc1 != 0 else "PASS"
     # git stash is shared between worktrees of one repository: reverse-apply the delivered patch instead
     patch = os.path.abspath(os.path.join(outdir, "patch.diff"))
     rcr, outr = sh("git apply -R %s" % patch, cwd=wt)
     assert rcr == 0, "cannot reverse patch in worktree: " + outr
-    rc2, _, o2 = go_tests(wt, run="TestSeed|TestDemo|Seed", pkg=pkg)
+    if in_main:
+        rc2, o2 = main_demo(wt, meta, outdir)
+    else:
+        rc2, _, o2 = go_tests(wt, run="TestSeed|TestDemo|Seed", pkg=pkg)
     report["demo_without_change"] = "FAIL" if rc2 != 0 else "PASS"
     _, base, _ = go_tests(wt)
     rca, outa = sh("git apply %s" % patch, cwd=wt)
